@@ -685,9 +685,15 @@ func AddForeign(r *core.Rng, d *Dir, n int, bigValues bool, invalidTypes bool) {
 			cnt = r.Range(1000, 6000)
 		}
 		if invalidTypes && r.Chance(1, 6) {
-			t := uint16(r.Pick(0, 13, 14, 15, 16, 17, 18, 19, 100, 127, 128, 200, 239, 254, 255, 256, 258, 0x0101, 0x0205, 0xff02, 0xffff))
+			t := uint16(r.Pick(0, 13, 14, 15, 16, 17, 18, 19, 100, 127, 128, 200, 239, 240, 241, 242, 254, 255, 256, 258, 0x0101, 0x0205, 0x01f0, 0x02f1, 0xff02, 0xffff))
 			v = Val{Type: t, Count: uint32(r.Range(0, 5))}
 			copy(v.Slot[:], r.Bytes(4))
+			switch r.Intn(4) { // a slot that a sloppy reader would take for a plausible offset
+			case 0:
+				v.Slot = [4]byte{byte(r.Intn(256)), byte(r.Intn(16)), 0, 0}
+			case 1:
+				v.Slot = [4]byte{0, 0, byte(r.Intn(16)), byte(r.Intn(256))}
+			}
 			d.Add(tag, v)
 			continue
 		}
@@ -750,4 +756,34 @@ func (rec *ExifRec) Assemble(link bool) *Dir {
 	rec.Exif.Sort()
 	rec.GPS.Sort()
 	return rec.IFD0
+}
+
+// AddForeignEmbedded adds n foreign entries whose values fit the 4-byte slot (they never become
+// pending references), used to reach the 128-entry limit exactly.
+func AddForeignEmbedded(r *core.Rng, d *Dir, n int) {
+	used := map[uint16]bool{}
+	for _, e := range d.Entries {
+		used[e.Tag] = true
+	}
+	res := reservedIDs[d.Kind]
+	for i := 0; i < n; i++ {
+		var tag uint16
+		for {
+			tag = uint16(r.Intn(65536))
+			if !used[tag] && !res[tag] {
+				break
+			}
+		}
+		used[tag] = true
+		switch r.Intn(4) {
+		case 0:
+			d.Add(tag, Short(uint16(r.U32())))
+		case 1:
+			d.Add(tag, Long(r.U32()))
+		case 2:
+			d.Add(tag, ByteV(r.Bytes(r.Range(0, 4))...))
+		default:
+			d.Add(tag, ASCIIRaw(append(r.Bytes(r.Range(0, 3)), 0)))
+		}
+	}
 }
